@@ -17,7 +17,13 @@ def seeded():
                     ("**%s**" % m["property"]) if own else ("%s: MISSED" % m["property"]), ", ".join(others) or "–", ("`%s`" % sig.replace("|", "/")[:70]) if sig else ""))
     head = "%d changes, %d caught by the check of the property they were written against (quick tier, seed 1; `seeded/RESULTS.md` and the `meta.json` files have every run). First-run misses and what was done about them are marked in `meta.json` (`first_run`) and listed below the table.\n\n" % (n, caught)
     head += "| id | change | needs | own check | also caught by | first signature |\n|---|---|---|---|---|---|\n"
-    return head + "\n".join(rows) + "\n"
+    misses = []
+    for f in sorted(glob.glob(os.path.join(ROOT, "seeded", "*", "meta.json"))):
+        m = json.load(open(f))
+        if m.get("first_run"):
+            misses.append("* **%s** — %s." % (m["id"], m["first_run"].rstrip(".")))
+    tail = "\nFirst-run misses (%d of %d) and the answers — all of them more reach or more observability, none a weaker oracle:\n\n" % (len(misses), n) + "\n".join(misses) + "\n"
+    return head + "\n".join(rows) + "\n" + tail
 def repl(s, tag, body):
     a, b = "<!-- %s-BEGIN -->" % tag, "<!-- %s-END -->" % tag
     i, j = s.index(a) + len(a), s.index(b)
